@@ -314,6 +314,54 @@ def _chunks(xs, n):
     return [xs[i:i + k] for i in range(0, len(xs), k)]
 
 
+def run_deep():
+    """Auxiliary (concrete): nesting far deeper than Python's default
+    recursion limit, long flat lists and long tokens through all four
+    renderers - the writers are documented to be iterative."""
+    import sys
+    import time
+    from ddsmt import nodeio
+    t0 = time.time()
+    old = sys.getrecursionlimit()
+    sys.setrecursionlimit(1000)          # the limit ddSMT itself runs under
+    bad = None
+    n = 0
+    try:
+        texts = ['(assert ' + '(not ' * 3000 + 'p' + ')' * 3000 + ')',
+                 '(' * 2500 + ')' * 2500,
+                 '(f ' + ' '.join(f'x{i}' for i in range(5000)) + ')',
+                 '(assert (= s "' + 'a b ' * 500 + '"))',
+                 '(a ' + '(b ' * 1200 + '(c d) ' + ')' * 1200 + ' e)']
+        for text in texts:
+            for mode in MODES:
+                n += 1
+                try:
+                    # only ddSMT's own code under the low limit: parse,
+                    # render, re-parse, structural comparison (Node.__eq__)
+                    exprs = list(nodeio.parse_smtlib(text))
+                    out = render(exprs, mode)
+                    again = list(nodeio.parse_smtlib(out))
+                    r = None if again == exprs else \
+                        're-parsing gives a different tree'
+                except RecursionError:
+                    r = 'RecursionError'
+                except Exception as e:
+                    r = f'{type(e).__name__}: {e}'
+                if r and bad is None:
+                    bad = ({'text_head': text[:40], 'mode': mode},
+                           f'{mode} renderer on an input of nesting depth '
+                           f'{text.count("(")}: {str(r)[:200]}')
+    finally:
+        sys.setrecursionlimit(old)
+    return {'status': 'VIOLATED' if bad else 'CONFIRMED',
+            'cex': bad[0] if bad else None,
+            'exc': {'type': 'Violation', 'msg': bad[1]} if bad else None,
+            'paths': n, 'paths_ok': n, 'samples': [{'depths': [3000, 2500]}],
+            'solver_checks': 0, 'solver_seconds': 0.0,
+            'wall_s': round(time.time() - t0, 2),
+            'note': 'concrete deep/long inputs (auxiliary)'}
+
+
 def bounds(tier):
     return {'max_len': 3 if tier == 'quick' else 4}
 
@@ -371,10 +419,15 @@ def partitions(tier):
                           'fn': make_ctx(pad, L), 'setup': _setup,
                           'budget_s': 160 if tier == 'quick' else 850,
                           'bounds': {'pad': pad, 'len': L}})
+    parts.append({'name': 'deep', 'kind': 'native', 'run': run_deep,
+                  'budget_s': 300})
     return parts
 
 
 def replay(part, cex):
+    if part == 'deep':
+        r = run_deep()
+        return r['exc']['msg'] if r['exc'] else None
     if part.startswith('tree'):
         import os
         _, mode, k = part.split('_')
